@@ -7,12 +7,13 @@ import HdVerif.Generated.T7b
 import HdVerif.Generated.T7c
 import HdVerif.Generated.T7d
 import HdVerif.Generated.T7e
+import HdVerif.Generated.T7f
 /-! C04 / C12: tiled images.
 
 Everything integer is taken from the definitions the translator regenerates from /repo
 (`Gen.stdRowColIndices` T3, `Gen.tiledRegion` T5, `Gen.tileArrayBounds` T6, `Gen.tilesPerAxisCeil` T7a,
 `Gen.tilesPerAxisFloor` T7b, `Gen.planePositionOffsets` T7c, `Gen.tfInit/tfMaxStep/tfRanges/tfMatchStep` T7d,
-`Gen.tiledFullZOffset` T7e);
+`Gen.tiledFullZOffset` T7e, `Gen.tiledFullFrameSlice` T7f);
 the loops around them (SQL selection as a list filter, the copy loop of `_get_pixels_by_frame`, the
 enumerations, the tiling loop of the Segmentation constructor) are written by hand here and tied to the
 code by the correspondence.
@@ -217,7 +218,7 @@ def tilePositions (tr tc R C : Int) (g : Geo) : Except ErrKind (List ((Int × In
 
 /-- `spatial.iter_tiled_full_frame_data`: (channel, focal plane, column position, row position, x, y, z)
 for every frame of a TILED_FULL image, channels outermost, then focal planes, then tiles row-major.
-`sbs` = SpacingBetweenSlices (1 when absent). -/
+`sbs` = SpacingBetweenSlices (1 when absent); `g.oz` = z offset of the total pixel matrix origin (0 when absent). -/
 def iterTiledFull (channels : List (Option Int)) (planes : Int) (tr tc R C : Int) (g : Geo) (sbs : Rat) :
     Except ErrKind (List (Option Int × Int × Int × Int × Rat × Rat × Rat)) :=
   (channels.flatMap (fun ch => (iota planes).map (fun p => (ch, p + 1)))).foldr
@@ -225,13 +226,30 @@ def iterTiledFull (channels : List (Option Int)) (planes : Int) (tr tc R C : Int
       match acc with
       | .error e => .error e
       | .ok rest =>
-        match tiledFullZOffset chp.2 sbs with
+        match tiledFullZOffset chp.2 sbs g.oz with
         | .error e => .error e
         | .ok zoff =>
           match tilePositions tr tc R C { g with oz := zoff } with
           | .error e => .error e
           | .ok ps => .ok (ps.map (fun p => (chp.1, chp.2, p.1.1, p.1.2, p.2.1, p.2.2.1, p.2.2.2)) ++ rest))
     (.ok [])
+
+/-- `spatial._get_spatial_information(dataset, frame_number)` for a TILED_FULL image — the position behind every
+`*Transformer.for_image(image, frame_number=k)`: `next(itertools.islice(iter_tiled_full_frame_data(dataset), a, b))` with
+the translated bounds.  A negative bound is a ValueError of `islice`, an empty slice a StopIteration. -/
+def framePosition (channels : List (Option Int)) (planes : Int) (tr tc R C : Int) (g : Geo) (sbs : Rat) (frameNumber : Int) :
+    Except ErrKind (Rat × Rat × Rat) :=
+  match tiledFullFrameSlice frameNumber with
+  | .error e => .error e
+  | .ok (a, b) =>
+    if a < 0 ∨ b < 0 then .error .value else
+    match iterTiledFull channels planes tr tc R C g sbs with
+    | .error e => .error e
+    | .ok l =>
+      if b ≤ a then .error .other else
+      match l[a.toNat]? with
+      | none => .error .other
+      | some x => .ok (x.2.2.2.2.1, x.2.2.2.2.2.1, x.2.2.2.2.2.2)
 
 /-- `utils.compute_plane_position_tiled_full`: (column position, row position, x, y, z) of the tile with 1-based
 tile indices; `z3d = some (slice_index, spacing_between_slices)` or `none` -/
